@@ -105,3 +105,20 @@ def effectDispatch (op : String) (args : List String) : Option String :=
       pure (match Model.StackEffect.effect t o a with | some e => toString e | none => "None")
   | _, _ => none
 end XV.Driver
+
+namespace XV.Driver
+/-- the field names of `Model.CodeConv.nativeArgs`, in order (same order as the Model's list) -/
+def nativeArgNames : String → Option (List String)
+  | "Code38" => some ["co_argcount", "co_posonlyargcount", "co_kwonlyargcount", "co_nlocals", "co_stacksize", "co_flags", "co_code",
+                      "co_consts", "co_names", "co_varnames", "co_filename", "co_name", "co_firstlineno", "co_lnotab", "co_freevars", "co_cellvars"]
+  | "Code310" => some ["co_argcount", "co_posonlyargcount", "co_kwonlyargcount", "co_nlocals", "co_stacksize", "co_flags", "co_code",
+                       "co_consts", "co_names", "co_varnames", "co_filename", "co_name", "co_firstlineno", "co_linetable", "co_freevars", "co_cellvars"]
+  | "Code311" => some ["co_argcount", "co_posonlyargcount", "co_kwonlyargcount", "co_nlocals", "co_stacksize", "co_flags", "co_code",
+                       "co_consts", "co_names", "co_varnames", "co_filename", "co_name", "co_qualname", "co_firstlineno", "co_linetable",
+                       "co_exceptiontable", "co_freevars", "co_cellvars"]
+  | _ => none
+def convDispatch (op : String) (args : List String) : Option String :=
+  match op, args with
+  | "x.nativeargs", [c] => (nativeArgNames c).map (",".intercalate ·)
+  | _, _ => none
+end XV.Driver
